@@ -148,12 +148,123 @@ def gen_glob(rng, tier):
     return chunk("glob", ops, 400)
 
 
+# ------------------------------------------------------------------ key-value procedures
+WORDS = ["a", "b", "x", "k1", "alpha", "Gamma", "n", "rate", "0.5", "-1e-3", "12", "a b", "p.q", "$(x)", "A_B"]
+
+
+def simple_value(rng):
+    r = rng.random()
+    if r < 0.1:
+        return ""
+    if r < 0.2:
+        return rng.choice(WORDS) + "=" + rng.choice(WORDS)       # '=' inside a value is allowed
+    return rng.choice(WORDS)
+
+
+def nested_value(rng, depth):
+    """name(k=v,...) with balanced parentheses, any depth up to `depth`"""
+    n = rng.randint(0, 3)
+    parts = []
+    for _ in range(n):
+        v = nested_value(rng, depth - 1) if depth > 1 and rng.random() < 0.4 else simple_value(rng)
+        parts.append(rng.choice(WORDS) + "=" + v)
+    return rng.choice(WORDS) + "(" + ",".join(parts) + ")"
+
+
+def valid_pairs(rng, n):
+    kvs = []
+    for _ in range(n):
+        k = rng.choice(WORDS[:10]) if rng.random() < 0.9 else ""
+        r = rng.random()
+        v = simple_value(rng) if r < 0.5 else nested_value(rng, 1) if r < 0.85 else nested_value(rng, 3)
+        if k == "" and v == "":
+            v = "z"
+        kvs.append((k, v))
+    return kvs
+
+
+def perturb(rng, t):
+    """break one side condition: structural character, white space, unbalanced parenthesis"""
+    k = rng.randint(0, 5)
+    pos = rng.randint(0, len(t))
+    if k == 0:
+        return t[:pos] + rng.choice(",=()") + t[pos:]
+    if k == 1:
+        return " " + t
+    if k == 2:
+        return t + rng.choice([" ", "\t"])
+    if k == 3:
+        return t[:pos] + rng.choice(["(", ")", "((", "))", ")("]) + t[pos:]
+    if k == 4:
+        return t.replace("(", "", 1) if "(" in t else t + ","
+    return ""
+
+
+def gen_keyval(rng, tier):
+    ops = []
+    thorough = tier == "thorough"
+    # 1. round trips: render -> parseProcedure, render -> changeKeyvals; 0..6 entries
+    nrt = 12000 if thorough else 1500
+    for i in range(nrt):
+        n = rng.choice([0, 1, 1, 2, 2, 3, 4, 5, 6])
+        name = rng.choice(["f", "Gamma", "Model ", "my model", "g2", "", "Beta"])
+        kvs = valid_pairs(rng, n)
+        if i % 4 == 3:              # near miss: one side condition broken somewhere
+            j = rng.randint(0, n)
+            if j == n:
+                name = perturb(rng, name)
+            else:
+                k, v = kvs[j]
+                kvs[j] = (perturb(rng, k), v) if rng.random() < 0.5 else (k, perturb(rng, v))
+        flat = " ".join(hx(k) + " " + hx(v) for k, v in kvs)
+        ops.append(("kv.rt %s %d %s" % (hx(name), n, flat)).rstrip())
+        # substitution: some present keys, some absent ones, arbitrary new values
+        m = rng.randint(0, 3)
+        news = []
+        for _ in range(m):
+            nk = rng.choice([k for k, _ in kvs]) if kvs and rng.random() < 0.7 else rng.choice(WORDS)
+            news.append((nk, rng.choice(WORDS + ["h(u=1,w=2)", "", "(", "a,b"])))
+        nflat = " ".join(hx(k) + " " + hx(v) for k, v in news)
+        ops.append(("kv.crt %s %d %s %d %s" % (hx(name), n, flat, m, nflat)).replace("  ", " ").rstrip())
+    # 2. exhaustive small universe of raw descriptions
+    alpha = "a=,() "
+    L = 6 if thorough else 5
+    for n in range(0, L + 1):
+        for t in itertools.product(alpha, repeat=n):
+            d = "".join(t)
+            ops.append("kv.parse %s" % hx(d))
+    L2 = 5 if thorough else 4
+    for n in range(0, L2 + 1):
+        for t in itertools.product(alpha, repeat=n):
+            d = "".join(t)
+            ops.append("kv.multi %s %s %d" % (hx(d), hx(","), n % 2))
+            ops.append("kv.multi %s %s %d" % (hx(d), hx(", "), (n + 1) % 2))
+            ops.append("kv.change %s %s %d 1 %s %s" % (hx(d), hx(","), n % 2, hx("a"), hx("Z")))
+    # 3. random longer raw descriptions built from procedure-like pieces
+    nraw = 8000 if thorough else 1000
+    pieces = ["f(", ")", ",", "=", " ", "a", "b=1", "g(x=2,y=3)", "k = v", " ,", "((", "))", "h()", "=="]
+    for _ in range(nraw):
+        d = "".join(rng.choice(pieces) for _ in range(rng.randint(1, 8)))
+        r = rng.random()
+        if r < 0.4:
+            ops.append("kv.parse %s" % hx(d))
+        elif r < 0.6:
+            ops.append("kv.multi %s %s %d" % (hx(d), hx(rng.choice([",", ", ", ";", "=,"])), rng.randint(0, 1)))
+        elif r < 0.8:
+            ops.append("kv.change %s %s %d 2 %s %s %s %s" % (hx(d), hx(rng.choice([",", ", "])), rng.randint(0, 1),
+                                                             hx("a"), hx("Z"), hx("k"), hx("w(q=1)")))
+        else:
+            ops.append("kv.single %s %s" % (hx(d), hx(rng.choice(["=", "=", ",", "= ", "(("]))))
+    return chunk("kv", ops, 300)
+
+
 # ------------------------------------------------------------------ entry points
 def generate(seed, tier):
     rng = random.Random(seed)
     cases = []
     cases += gen_numbers(rng, tier)
     cases += gen_glob(rng, tier)
+    cases += gen_keyval(rng, tier)
     return cases
 
 
